@@ -3,6 +3,7 @@ CONSTANTS
   MaxNS = 8
   MaxND = 5
   MaxList = 2
+  MaxSync = 2
   Ks = {1, 2, 3, 4}
   Variant = "fixed"
   Modes = {"rows", "cols"}
